@@ -35,7 +35,7 @@ CLAIMS = {
   note="Trusts: the reviewed goroutine table (14 rows) and channel roles derived from field names/types; one reviewed reply exemption.",
   ref="3 C13"),
  "C16": dict(
-  technique="lockset (guarded-by) analysis, must-pass-through path queries (broadcast after store/close), who-may-call",
+  technique="lockset (guarded-by) analysis, path enumeration with virtual inlining of helpers (push verdicts, broadcast after store, re-test after wait, one error report), must-pass-through path queries, who-may-call",
   text="Decides that all ring state is touched under the mutex, that a push or close always broadcasts, that Wait sits in a re-testing loop, that refusal happens only on the occupied-slot edge tested under the lock, that Close discards every slot, that Pull has a single consumer spawned once, and that an error stops the consumer after one report. Does not decide linearizability of concurrent histories.",
   note="Trusts: sync.Mutex/Cond semantics; RingBuffer.Reset is documented single-threaded (exempt).",
   ref="3 C16"),
@@ -50,17 +50,17 @@ CLAIMS = {
   note="Trusts: VTA soundness for the program (no unsafe/reflection calls); the reviewed panic classification table; handlers honour their documented contracts.",
   ref="3 C11"),
  "C17": dict(
-  technique="provenance analysis of byte buffers with path conditions (encrypt-before-sink, decrypt-before-parse), boolean path enumeration of the admission predicate, lockset on the shared SRTP context",
+  technique="provenance analysis of byte buffers with path conditions (encrypt-before-sink, decrypt-before-parse), boolean path enumeration of the admission predicate, path-sensitive must-fact dataflow for the scheme downgrade, lockset on the shared SRTP context",
   text="Decides that in every function that can encrypt, a buffer leaving towards the queue or socket is the encrypt output whenever an SRTP context is known set; that parsers receive decrypt output when a context is set and never after a failed decrypt; that the transport admission predicate refuses SAVP without TLS and plain UDP with TLS on every accepting path; that a redirect cannot downgrade rtsps; that the shared SRTP context is used under its exclusive lock. Does not decide key agreement or observe bytes on the wire.",
   note="Trusts: pion/srtp encrypt/decrypt semantics; wrappedSRTPContext is the only way to pion/srtp.",
   ref="3 C17"),
  "C18": dict(
-  technique="provenance / dominance analysis of size guards on every write entry point, start-time guard path queries",
+  technique="provenance / dominance analysis of size guards on every write entry point (linear budget per security state), path-sensitive must-fact dataflow with helper summaries for the start-time limits",
   text="Decides that every write entry point bounds what leaves it: RTP marshalled into a MaxPacketSize(-srtpOverhead) buffer with the error returned before any escape, RTCP refused above MaxPacketSize(-srtcpOverhead) before any escape, encryption into a MaxPacketSize buffer; and that Start refuses an over-large MaxPacketSize and a non power-of-two queue size on every path to the spawn. Does not decide that SRTP adds exactly the overhead constants (an MKI adds bytes they do not count: see DESIGN.md findings).",
   note="Trusts: pion MarshalTo fails on a short buffer; overhead constants.",
   ref="3 C18"),
  "C19": dict(
-  technique="must-pass-through path queries on the UDP filters, lookup-key provenance, lockset, entry-block shape of the connection pin",
+  technique="path-sensitive must-fact dataflow with helper summaries (UDP source filter, refused requests), lookup-key provenance, lockset, path enumeration with virtual inlining (creator IP, connection pin)",
   text="Decides that in the client UDP loop the timestamp update and the callback are reachable only through the source-IP and source-port checks, that the server delivers only to the callback registered for the datagram's exact (IP, port), that the peer table is written only by add/remove under its lock, that an existing session is granted only on the edge where IP and zone equal the creator's, and that a foreign connection is refused first thing with 4xx and an error. Does not decide IPv4-mapped normalisation.",
   note="Trusts: net.IP.Equal semantics.",
   ref="3 C19"),
